@@ -48,7 +48,9 @@ prop("C03", "Conditionals execute exactly the branch the comparison selects", [
 prop("C04", "Counter loops run the body exactly for Go's counter sequence", [
     ("loop_is_go_loop", "cloop_run_is_go_loop", "the loop driver is one body execution per value of Go's counter sequence, in order (int64 wrap-around included), bounds evaluated once; signals and failures cut it short as run_iters says"),
     ("false_at_entry_runs_nothing", "cloop_false_at_entry", "a loop whose condition is false at entry executes nothing"),
-    ("variable_reads_go_value", "counter_reads_go_value", "the loop variable reads Go's value of i in every iteration"),
+    ("variable_reads_go_value_everywhere", "counter_reads_go_value_everywhere", "FULL STATEMENT: in every counter loop of every program, whatever its body contains (nested loops, switches, calls), the loop variable reads Go's value of i in every iteration"),
+    ("rules_keep_cells_and_log", "follow_keeps", "the induction behind it: a rule, at any fuel, only appends counter cells and only extends the call log"),
+    ("variable_reads_go_value", "counter_reads_go_value", "the driver-level statement it instantiates"),
     ("loop_statement", "follow_loopcount", "the loop statement: evaluate, run, report ctx.Err"),
     ("rules_after_loop_run", "rules_cons_ok", "rules after the loop run afterwards"),
 ])
